@@ -40,8 +40,9 @@ def contract_modules():
 
 # bounded stand-ins per property (pyvc/bounded.py); C19 is decided by its bounded item alone
 BOUNDED = {'C19': ['rays'], 'C06': ['occlusion', 'rays'], 'C12': ['dijkstra', 'trajectories'],
-           'C01': ['dijkstra', 'trajectories'], 'C02': ['trajectories'], 'C04': ['trajectories'], 'C08': ['trajectories'],
-           'C09': ['trajectories'], 'C10': ['trajectories'], 'C20': ['trajectories'],
+           'C01': ['dijkstra', 'trajectories'], 'C02': ['trajectories', 'env_histories'],
+           'C04': ['trajectories', 'env_histories'], 'C08': ['trajectories'],
+           'C09': ['trajectories'], 'C10': ['trajectories'], 'C20': ['trajectories', 'env_histories'],
            'C15': ['representations', 'trajectories'], 'C16': ['representations']}
 _BOUNDED_CACHE = {}
 
